@@ -186,7 +186,7 @@ THEOREMS = ["T_MeshRoundTrip: the u-row ordered rows of a smesh / vmesh file det
 
 
 def run(ctx):
-    res = core.run_model(ctx, "MC_C14", 1200, thorough_seeds=(2, 3, 5))
+    res = core.run_model(ctx, "MC_C14", 1200, thorough_seeds=(2, 3, 5, 7))
     core.tlc_must_pass(res, "MC_C14")
     ctx.add_tlc(res, "shapes with pairwise different sizes and containers x formats")
     ctx.theorems = THEOREMS
